@@ -8,5 +8,9 @@ from excel2pycl.src.utilities.helper import get_flatten_list
 class IfsControlConstructionTokenTranslator(AbstractTranslator):
     @classmethod
     def translate(cls, token: IfsControlConstructionToken, excel: Excel, context: Context) -> str:
-        flatten_list = get_flatten_list(token, excel, context)
-        return context.set_sub_cell(token.in_cell, f'self._ifs({flatten_list})')
+        from excel2pycl.src.translators.expression_token_translator import ExpressionTokenTranslator
+
+        # conditions and values are passed as thunks: IFS evaluates pairs only up to the first true condition
+        thunks = ','.join(
+            [f'lambda: {ExpressionTokenTranslator.translate(i, excel, context)}' for i in token.expressions])
+        return context.set_sub_cell(token.in_cell, f'self._ifs([{thunks}])')
